@@ -155,6 +155,9 @@ FUNCS = {
     "encode_pinblock_iso_0": pinblock.encode_pinblock_iso_0,
     "encode_pinblock_iso_2": pinblock.encode_pinblock_iso_2,
     "encode_pan_field_iso_4": pinblock.encode_pan_field_iso_4,
+    "encode_pinblock_iso_3": pinblock.encode_pinblock_iso_3,       # randomised: implementation side only
+    "encode_pin_field_iso_4": pinblock.encode_pin_field_iso_4,
+    "encipher_pinblock_iso_4": pinblock.encipher_pinblock_iso_4,
     "decode_pinblock_iso_0": pinblock.decode_pinblock_iso_0,
     "decode_pinblock_iso_2": pinblock.decode_pinblock_iso_2,
     "decode_pinblock_iso_3": pinblock.decode_pinblock_iso_3,
